@@ -233,6 +233,7 @@ func (g *checker) judge(k *kase, code []byte, sigKind string) *verdict {
 	ref := refevm.Run(code, g.refcfg(k.Probe))
 	if ref.Status == refevm.Unsupported {
 		g.c.Count("skipped_outside_model", 1)
+		g.c.Count("skipped: "+k.Fam+": "+ref.Why, 1)
 		return nil
 	}
 	gas := uint64(10_000_000_000)
@@ -253,7 +254,7 @@ func (g *checker) judge(k *kase, code []byte, sigKind string) *verdict {
 		g.c.NontrivialN(1)
 	}
 	g.c.Outcome(k.Fam + ":" + ref.Status.String())
-	if g.sample[k.Fam] < 1 && ref.Status == refevm.Success && len(ref.Ret) > 0 {
+	if g.sample[k.Fam] < 1 && ref.Status == refevm.Success && len(ref.Ret) > 0 && fw.U64(code)%97 == 0 {
 		g.sample[k.Fam]++
 		g.c.Sample(map[string]interface{}{"case": k, "reference": want, "implementation": o.Status, "return_data": hex.EncodeToString(o.Ret)})
 	}
